@@ -178,14 +178,18 @@ func (r *replication) replicate(c *conn, req *appendReq) error {
 			}()
 			for {
 				err := r.writeAppendEntriesReq(c, req, true)
-				select {
-				case <-stopCh:
-					return
-				case resultCh <- result{r.nextIndex - 1, err}:
-				}
 				if err != nil {
+					select {
+					case <-stopCh:
+					case resultCh <- result{r.nextIndex - 1, err}:
+					}
 					return
 				}
+				// the request is on the wire and will be answered: the reader must get to
+				// know of it even when the pipeline is being stopped, otherwise that answer
+				// stays unread and every later response on this conn is taken for the
+				// answer to the request after it. the reader drains resultCh until we close it
+				resultCh <- result{r.nextIndex - 1, nil}
 				for {
 					ldrUpdate, errStop := r.checkLeaderUpdate(stopCh, req, true)
 					if errStop != nil {
